@@ -630,8 +630,7 @@ class Ctx:
         m = re.match(r"^(.*?) = (.*) -> \[return: (bb\d+), unwind.*\];$", s)
         if m:
             dst, callee, tgt = m.group(1), m.group(2), m.group(3)
-            cm = re.match(r"^(.*?)\((.*)\)$", callee)
-            fname, argstr = cm.group(1), cm.group(2)
+            fname, argstr = split_call(callee)
             args = [self.operand_or_ref(fn, a, loc) for a in split_top(argstr)] if argstr.strip() else []
             val = self.model_call(fname, args)
             self.write_place(fn, self.place(fn, dst, loc), val, loc)
@@ -858,6 +857,25 @@ class Ctx:
             if callee is not None:
                 return self.call(callee, a)
         raise Unsupported("no model for call `%s`" % f)
+
+
+def split_call(callexpr):
+    """`path::<(A, B)>::f(arg1, (x, y))` -> (callee, argstr): the argument list is the LAST balanced parenthesis group"""
+    callexpr = callexpr.strip()
+    if not callexpr.endswith(")"):
+        return None
+    depth = 0
+    i = len(callexpr) - 1
+    while i >= 0:
+        ch = callexpr[i]
+        if ch == ")":
+            depth += 1
+        elif ch == "(":
+            depth -= 1
+            if depth == 0:
+                return callexpr[:i], callexpr[i + 1:-1]
+        i -= 1
+    return None
 
 
 def _balanced(s):
